@@ -113,8 +113,12 @@ class Ctx:
         group = group or what[:28]
         gk = (bucket, group)
         self._group_counts[gk] = self._group_counts.get(gk, 0) + 1
+        # the cap on kept witnesses must never crowd out a real violation by
+        # witnesses of known findings: those are capped separately
+        kept_same_kind = sum(1 for c in self.candidates
+                             if bool(c['kf']) == bool(kf))
         if (self._group_counts[gk] <= MAX_PER_GROUP
-                and len(self.candidates) < MAX_CANDIDATES_KEPT):
+                and kept_same_kind < MAX_CANDIDATES_KEPT):
             self.candidates.append({
                 'bucket': bucket, 'kf': kf, 'what': what, 'group': group,
                 'monitor': monitor, 'witness': jsonable(witness),
